@@ -2,6 +2,64 @@
   Helper lemmas (RunO).
 -/
 import TB.Spec.ExportSpec
+import TB.Lemmas.RunB
+import TB.Props.C17
 namespace TB.RunO
+open TB.RB
+
+/-- two lists with the same image under `f`, on which `f` is injective across the two lists, are equal -/
+theorem map_eq_inj {α β : Type} (f : α → β) (l₁ l₂ : List α)
+    (hmap : l₁.map f = l₂.map f)
+    (hinj : ∀ a ∈ l₁, ∀ b ∈ l₂, f a = f b → a = b) : l₁ = l₂ := by
+  induction l₁ generalizing l₂ with
+  | nil =>
+    cases l₂ with
+    | nil => rfl
+    | cons b l₂ => simp at hmap
+  | cons a l₁ ih =>
+    cases l₂ with
+    | nil => simp at hmap
+    | cons b l₂ =>
+      simp only [List.map_cons, List.cons.injEq] at hmap
+      have hab : a = b := hinj a List.mem_cons_self b List.mem_cons_self hmap.1
+      have ht : l₁ = l₂ := ih l₂ hmap.2 (fun x hx y hy =>
+        hinj x (List.mem_cons_of_mem _ hx) y (List.mem_cons_of_mem _ hy))
+      rw [hab, ht]
+
+theorem dedup_sort_eq (ts ts' : List Torrent)
+    (hinj : ∀ t ∈ ts ++ ts', ∀ u ∈ ts ++ ts', t.infoHash = u.infoHash → t = u)
+    (hmem : ∀ t, t ∈ ts ↔ t ∈ ts') :
+    dedupTorrents (sortTorrents ts) = dedupTorrents (sortTorrents ts') := by
+  apply map_eq_inj (·.infoHash)
+  · apply C17_dedup_perm
+    intro x
+    simp only [List.mem_map]
+    constructor
+    · rintro ⟨t, ht, rfl⟩; exact ⟨t, (hmem t).1 ht, rfl⟩
+    · rintro ⟨t, ht, rfl⟩; exact ⟨t, (hmem t).2 ht, rfl⟩
+  · intro a ha b hb hab
+    have ha' : a ∈ ts := (mem_sortTorrents ts a).1 (dedupTorrents_mem _ a ha)
+    have hb' : b ∈ ts' := (mem_sortTorrents ts' b).1 (dedupTorrents_mem _ b hb)
+    exact hinj a (List.mem_append_left _ ha') b (List.mem_append_right _ hb') hab
+
+theorem isEmpty_eq_of_mem {α : Type} (l l' : List α) (hmem : ∀ t, t ∈ l ↔ t ∈ l') :
+    l'.isEmpty = l.isEmpty := by
+  cases l with
+  | nil =>
+    cases l' with
+    | nil => rfl
+    | cons b l' => exact absurd ((hmem b).2 List.mem_cons_self) (by simp)
+  | cons a l =>
+    cases l' with
+    | nil => exact absurd ((hmem a).1 List.mem_cons_self) (by simp)
+    | cons b l' => rfl
+
+/-- `run` depends on the torrent list only through its emptiness and its sorted, de-duplicated form -/
+theorem run_torrents_congr (H : Bytes → Bytes) (inp : RunIn) (ts' : List Torrent)
+    (he : ts'.isEmpty = inp.torrents.isEmpty)
+    (hd : dedupTorrents (sortTorrents ts') = dedupTorrents (sortTorrents inp.torrents)) :
+    run H { inp with torrents := ts' } = run H inp := by
+  unfold run
+  simp only [he, hd]
 
 end TB.RunO
